@@ -61,6 +61,7 @@ def main(tier, seed):
         c10.binder_obligations(chk, I, flags, clsname, restrict_accept=False)
     c10.glue_obligations(chk)
     c10.bind_obligations(chk)
+    c10.binding_init_obligations(chk)
     c10.binding_lookup_obligations(chk)
     c10.noop_lemma(chk)
     chk.trusted.update(I.assumed_used)
